@@ -1,5 +1,6 @@
 SPECIFICATION Spec
 CONSTANTS
   LawId = "cubic"
+  LawTable <- EmptyTable
   FixedJunction = TRUE
 INVARIANT Report
